@@ -18,3 +18,9 @@ pub use crate::{
     module_loader::{ModuleLoader, ModuleLoaderError, find_module},
     op::Op,
 };
+
+/// Hooks for external verification harnesses, see `verif_hooks.rs` in `compiler/` and `frame/`
+#[cfg(feature = "verif-hooks")]
+pub mod verif_hooks {
+    pub use crate::{compiler::verif_hooks::*, frame::verif_hooks::*};
+}
